@@ -150,5 +150,19 @@ PROPS["C20"] = {
     "trusted_base": _SYS_TRUSTED + ["go race detector (thorough search for a failing schedule, not a proof)", "elton, net/http, sync.Map, go.uber.org/atomic"],
 }
 
+PROPS["C12"] = {
+    "suites": [{"name": "codecs", "quick": 1500, "thorough": 30000, "thorough_seeds": 3}],
+    "trip_re": "roundtrip_fails.*|decoder_crash.*",
+    "rule": "codecs: bodies empty/1 byte/random small/random 20-50 KB/repetitive/zeros up to 3000/zeros 100-500 KB/structured JSON/tiny; "
+            "enc: gzip and brotli through pike's services at levels -2..13 (configured through compress.Reset and SetLevels), decoded by the "
+            "standard decoders AND pike's own; dec: gzip/br/zst/snz streams from reference encoders through Decompress; lz4: blocks from "
+            "lz4.CompressBlock at every ratio plus hand-made run-length blocks (extended lengths up to 600), judged ALSO by the Lean "
+            "block-format decoder and the Lean model of pike's growing-buffer wrapper; mut: bit flips/truncation/splices on streams of "
+            "all five formats under recover + 20 s watchdog. non-trivial = every line; distinct = distinct lines.",
+    "assumptions": ["PARTIAL BY NATURE: the round trips of gzip/br/zstd/snappy and no-panic on malformed input are library behaviour: assumed (Resp.CodecsOK) and exercised, not proved",
+                    "LZ4: the library decodes a block iff the destination holds the output (modelled from its documentation, compared in the suite)"],
+    "trusted_base": ["compress/gzip, andybalholm/brotli, pierrec/lz4, klauspost/compress/zstd, golang/snappy"],
+}
+
 NOT_APPLICABLE = {}
 HOOK_COMMITS = ["ca43a57", "6332ff2"]
